@@ -3,7 +3,7 @@ use std::fs::File;
 use std::io::{Read, Seek, SeekFrom, Write};
 use std::path::Path;
 
-use crate::common::{C3Vector, Quaternion};
+use crate::common::{C3Vector, Quaternion, check_count};
 use crate::error::{M2Error, Result};
 use crate::version::M2Version;
 
@@ -284,6 +284,17 @@ pub struct AnimSection {
 }
 
 impl AnimSection {
+    /// Upper bound for the number of elements reserved up front from a count stored in the file
+    ///
+    /// The reader is not seekable here, so counts cannot be compared with the size of the
+    /// input. Larger arrays grow while their data is actually being read.
+    const MAX_PREALLOCATED_ELEMENTS: usize = 1024;
+
+    /// Capacity to reserve for `count` elements announced by the file
+    fn bounded_capacity(count: u32) -> usize {
+        (count as usize).min(Self::MAX_PREALLOCATED_ELEMENTS)
+    }
+
     /// Parse an animation section from a reader
     pub fn parse<R: Read>(reader: &mut R, size: u32) -> Result<Self> {
         let header = AnimSectionHeader::parse(reader)?;
@@ -299,13 +310,13 @@ impl AnimSection {
         let bone_count = remaining_size / 4; // Each bone animation reference is 4 bytes
 
         // Read bone animation offsets
-        let mut bone_offsets = Vec::with_capacity(bone_count as usize);
+        let mut bone_offsets = Vec::with_capacity(Self::bounded_capacity(bone_count));
         for _ in 0..bone_count {
             bone_offsets.push(reader.read_u32_le()?);
         }
 
         // Read bone animations
-        let mut bone_animations = Vec::with_capacity(bone_count as usize);
+        let mut bone_animations = Vec::with_capacity(bone_offsets.len());
 
         for &offset in &bone_offsets {
             if offset > 0 {
@@ -319,12 +330,14 @@ impl AnimSection {
                 let translation = if (flags & 0x1) != 0 {
                     let timestamp_count = reader.read_u32_le()?;
 
-                    let mut timestamps = Vec::with_capacity(timestamp_count as usize);
+                    let mut timestamps =
+                        Vec::with_capacity(Self::bounded_capacity(timestamp_count));
                     for _ in 0..timestamp_count {
                         timestamps.push(reader.read_u32_le()?);
                     }
 
-                    let mut translations = Vec::with_capacity(timestamp_count as usize);
+                    let mut translations =
+                        Vec::with_capacity(Self::bounded_capacity(timestamp_count));
                     for _ in 0..timestamp_count {
                         translations.push(C3Vector::parse(reader)?);
                     }
@@ -341,12 +354,13 @@ impl AnimSection {
                 let rotation = if (flags & 0x2) != 0 {
                     let timestamp_count = reader.read_u32_le()?;
 
-                    let mut timestamps = Vec::with_capacity(timestamp_count as usize);
+                    let mut timestamps =
+                        Vec::with_capacity(Self::bounded_capacity(timestamp_count));
                     for _ in 0..timestamp_count {
                         timestamps.push(reader.read_u32_le()?);
                     }
 
-                    let mut rotations = Vec::with_capacity(timestamp_count as usize);
+                    let mut rotations = Vec::with_capacity(Self::bounded_capacity(timestamp_count));
                     for _ in 0..timestamp_count {
                         rotations.push(Quaternion::parse(reader)?);
                     }
@@ -363,12 +377,13 @@ impl AnimSection {
                 let scaling = if (flags & 0x4) != 0 {
                     let timestamp_count = reader.read_u32_le()?;
 
-                    let mut timestamps = Vec::with_capacity(timestamp_count as usize);
+                    let mut timestamps =
+                        Vec::with_capacity(Self::bounded_capacity(timestamp_count));
                     for _ in 0..timestamp_count {
                         timestamps.push(reader.read_u32_le()?);
                     }
 
-                    let mut scalings = Vec::with_capacity(timestamp_count as usize);
+                    let mut scalings = Vec::with_capacity(Self::bounded_capacity(timestamp_count));
                     for _ in 0..timestamp_count {
                         scalings.push(C3Vector::parse(reader)?);
                     }
@@ -773,7 +788,8 @@ impl AnimParser {
         // Parse animation entries
         reader.seek(SeekFrom::Start(header.anim_entry_offset as u64))?;
 
-        let mut entries = Vec::with_capacity(header.id_count as usize);
+        // Each entry is 12 bytes (id + offset + size)
+        let mut entries = Vec::with_capacity(check_count(reader, header.id_count as u64, 12)?);
         for _ in 0..header.id_count {
             entries.push(AnimEntry::parse(reader)?);
         }
